@@ -458,6 +458,10 @@ class HistGen:
             elif self.o["faults"] and r.chance(1, 12):
                 out.append(f"w short:{1 + r.below(20)}")
                 self.count("fault-short")
+            elif r.chance(1, 10):
+                # the same worker step, performed while a dump of the live store is being read
+                out.append("dumpwstep")
+                self.count("worker-step-during-dump")
             else:
                 out.append("w ok")
         if r.chance(1, 6):
